@@ -11,7 +11,11 @@ res = {}
 for l in lines:
     m = re.match(r"^(\S+): demo_on_base_exit=(\d+) demo_on_mutant_exit=(\d+) suite_exit=(\d+|skipped) :: *(.*)$", l)
     if m:
-        res[m.group(1)] = (int(m.group(2)), int(m.group(3)), m.group(4), m.group(5).strip())
+        cand = (int(m.group(2)), int(m.group(3)), m.group(4), m.group(5).strip())
+        prev = res.get(m.group(1))
+        good = lambda r: r[0] == 0 and r[1] not in (0, 124) and r[2] == "0"
+        if prev is None or good(cand) or not good(prev) and cand[2] not in ("127", "101"):
+            res[m.group(1)] = cand
 n = 0
 for sid, (b, mu, su, summ) in sorted(res.items()):
     p = os.path.join(ROOT, "seeded", sid, "meta.json")
